@@ -3,6 +3,8 @@
 From GV.Model Require Import SEval.
 From GV.Proofs Require Import StatusProps EvalLaws CompareProps NegationProps TableProps.
 From GV.Generated Require Import EvalTables.
+From GV.Model Require Import ValueParse OpParse.
+From GV.Proofs Require Import ValueSpellProps OpParseProps.
 
 (* `not X exists` == `X !exists`, likewise empty and the is_* tests: same status, same
    final state, for every query, all/some, every callee evaluator, every state *)
@@ -80,3 +82,18 @@ Theorem C03_unary_operators_are_the_source_tables : forall o,
 Proof. exact (fun o => conj (is_unary_is_the_source_table o) (conj (unary_base_is_the_model_dispatch o)
                         (conj (unary_dispatch_is_the_source_table o) (unary_unreachable_arm_is_the_binary_operators o)))). Qed.
 Print Assumptions C03_unary_operators_are_the_source_tables.
+
+(* ---- the operator grammar (Model/OpParse.v = parser.rs value_cmp) ---- *)
+
+(* a text that starts with a negation (`not ` / `NOT ` / `!`) never parses to an un-negated operator *)
+Theorem C03_parsed_negation_is_never_dropped : forall s o neg r r',
+  not_kw s = Some r' -> value_cmp s = POk (o, neg) r -> neg = true.
+Proof. exact negation_is_never_dropped. Qed.
+Print Assumptions C03_parsed_negation_is_never_dropped.
+
+(* every negation spelling in front of every keyword operator gives that operator, negated *)
+Theorem C03_negated_operator_is_read_as_negated : forall o t, is_keyword_spelling o t -> forall w b rest,
+  In w kw_not_words -> blanks b -> b <> EmptyString ->
+  value_cmp (w +++ (b +++ (t +++ rest))) = POk (o, true) rest /\ value_cmp (String "!" (t +++ rest)) = POk (o, true) rest.
+Proof. exact negated_keyword_operator. Qed.
+Print Assumptions C03_negated_operator_is_read_as_negated.
